@@ -147,6 +147,30 @@ class World:
     def clone(self, who):
         return copy.deepcopy(self.s[who].real)
 
+    def fast_preroll(self, cname, sname, n):
+        """A joined client/server pair that has already completed `n` minimal operations (each answered at once) before the
+        seeded history starts: ids then need two octets and small-integer caches no longer apply.  Done on the real
+        sessions without per-event bookkeeping; both reference models are advanced alike.  Raises HarnessError if the pair
+        does not get through it (that is then some other check's finding, reached there through the ordinary ops)."""
+        c, s = self.s[cname], self.s[sname]
+        for i in range(n):
+            try:
+                mid = c.real.extended_request("1.1")
+                s.real.receive(c.real.data_to_send())
+                s.real.extended_response(mid)
+                c.real.receive(s.real.data_to_send())
+            except Exception as e:  # noqa: BLE001
+                raise Diverged("pair did not survive %d plain operations: %s: %s" % (i + 1, type(e).__name__, e))
+            c.model.call_commit("extended_request", {"name": "1.1"}, True, ret=mid)
+            c.model._retire(mid)
+            if s.model.st == "B0":
+                s.model.st = "OP"
+            s.model.retired.append(mid)
+            for m in (c.model, s.model):
+                if len(m.retired) > 64:
+                    del m.retired[:-32]
+        self.note({"op": "fast_preroll", "n": n})
+
     def misuse_receive(self, who, kind):
         """The application passes something that is not bytes-like to receive() (a bug on its side).  Whatever the call
         does - normally it raises TypeError - is not judged here; what matters is what the session does afterwards."""
